@@ -764,7 +764,7 @@ func ruleTerminate(c *Ctx) {
 // by program text on the same line; the short-comment loop (skip to end of line) must not run after it.
 func ruleLongComment(c *Ctx) {
 	const R = "R08-comment"
-	c.floor(R, 1)
+	c.floor(R, 4)
 	p := c.P
 	fn := c.need(R, "parse", "(*Scanner).skipComments")
 	if fn == nil {
@@ -772,11 +772,64 @@ func ruleLongComment(c *Ctx) {
 	}
 	g := p.G(fn)
 	ml := p.Fn("parse", "(*Scanner).scanMultilineString")
+	body := p.Fn("parse", "(*Scanner).scanMultilineBody")
 	next := p.Fn("parse", "(*Scanner).Next")
-	calls := callsTo(fn, ml)
+	calls := append(callsTo(fn, ml), callsTo(fn, body)...)
 	if len(calls) == 0 || next == nil {
-		c.und(R, "skipComments:long-form", p.pos(fn.Pos()), "skipComments does not call scanMultilineString")
+		c.und(R, "skipComments:long-form", p.pos(fn.Pos()), "skipComments calls neither scanMultilineString nor scanMultilineBody")
 		return
+	}
+	// "--[==" that is not followed by a second bracket is a short comment (F53): the long-comment scanner
+	// is entered only once the second '[' has been seen, and never through scanMultilineString, which
+	// reports a missing bracket as an error
+	{
+		entered := len(callsTo(fn, ml)) == 0
+		for _, cl := range callsTo(fn, body) {
+			okBr := false
+			for _, cd := range g.CondsAtInstr(cl) {
+				if b, ok := cd.V.(*ssa.BinOp); ok && ((b.Op == token.EQL && cd.Sense) || (b.Op == token.NEQ && !cd.Sense)) {
+					if k, ok := constInt(b.Y); ok && k == '[' {
+						okBr = true
+					}
+				}
+			}
+			if !okBr {
+				entered = false
+			}
+		}
+		c.check(entered, R, "skipComments:long-form-needs-second-bracket", p.pos(fn.Pos()), "the long-comment scanner is entered only after '--[', '='*, '['", "skipComments hands '--[=' to the long-string scanner without having seen the second bracket: '--[= note' (a short comment in Lua 5.1) is rejected as an invalid multiline comment")
+	}
+	// F51: blanks are C's isspace set
+	for name, want := range map[string]string{"whitespace1": "\t \f\v", "whitespace2": "\t \f\v\n\r"} {
+		v, ok := p.intConst("parse", name)
+		missing := ""
+		for _, ch := range want {
+			if !ok || v&(1<<uint(ch)) == 0 {
+				missing += fmt.Sprintf(" %q", ch)
+			}
+		}
+		c.check(missing == "", R, "blanks:"+name, "-", "tab, space, form feed and vertical tab (and the line ends) are blank space", "the lexer's blank set "+name+" lacks"+missing+": Lua 5.1 skips every isspace character between tokens ('return\\f1' is rejected as an invalid token)")
+	}
+	// F52: a decimal escape is a byte
+	if esc := p.Fn("parse", "(*Scanner).scanEscape"); esc != nil {
+		eg := p.G(esc)
+		wc := p.Fn("parse", "writeChar")
+		okc, found := true, false
+		for _, cl := range callsTo(esc, wc) {
+			cv, isConv := cl.Call.Args[1].(*ssa.Convert)
+			if !isConv {
+				continue
+			}
+			if _, fromParse := cv.X.(*ssa.Extract); !fromParse {
+				continue
+			}
+			found = true
+			up, _, hasUp, _ := bounds(eg, cl, cv.X)
+			if !hasUp || up > 255 {
+				okc = false
+			}
+		}
+		c.check(found && okc, R, "scanEscape:decimal-escape-is-a-byte", p.pos(esc.Pos()), "\\ddd is written only when ddd <= 255", "scanEscape writes a decimal escape without checking it against 255: '\\300' silently becomes byte 44 instead of the error 'escape sequence too large'")
 	}
 	for i, cl := range calls {
 		b, idx := after(cl)
